@@ -350,17 +350,24 @@ pub fn drop_panic<const N: usize>(which: u8) {
             }
         });
         // still a valid collection whose len() equals what it yields
-        let post = snap::<DP, _, N>(hv::raw_of_table_ref(&t));
-        assert!(inv::<N>(&post, InvKind::Safe, &ZH, false, false));
-        assert!(t.len() == post.count_full());
-        if which != 4 {
-            assert!(t.len() == 0);
-        } else if !panicked {
-            assert!(t.len() == 0);
-        }
-        // an element still in the table has not been dropped
-        if post.mult(q) > 0 {
-            assert!(drops(q) == 0);
+        let raw = hv::raw_of_table_ref(&t);
+        if raw.v_is_empty_singleton() {
+            // a drain whose Drop unwound leaves the (moved-out) table as the unallocated singleton
+            assert!(which == 2 && panicked);
+            assert!(t.len() == 0 && t.iter().next().is_none());
+        } else {
+            let post = snap::<DP, _, N>(raw);
+            assert!(inv::<N>(&post, InvKind::Safe, &ZH, false, false));
+            assert!(t.len() == post.count_full());
+            if which != 4 {
+                assert!(t.len() == 0);
+            } else if !panicked {
+                assert!(t.len() == 0);
+            }
+            // an element still in the table has not been dropped
+            if post.mult(q) > 0 {
+                assert!(drops(q) == 0);
+            }
         }
         kani::cover!(panicked, "destructor panicked");
         core::mem::forget(t);
